@@ -60,7 +60,8 @@ class R:
 
 
 class ScheduleTimeout(BaseException):
-    """schedule() did not return within CALL_TIMEOUT_S (normal calls take milliseconds)."""
+    """schedule() did not return within CALL_TIMEOUT_S of CPU time of this process (normal calls take
+    milliseconds; CPU time, not wall-clock, so that a loaded machine cannot cause it)."""
 
 
 CALL_TIMEOUT_S = 2.0
@@ -526,13 +527,13 @@ def run_spec(spec: dict, capture: bool = True):
         cap = Capture(world)
         Capture.current = cap if capture else None
         err, placements = None, []
-        old_handler = signal.signal(signal.SIGALRM, _on_alarm)
-        signal.setitimer(signal.ITIMER_REAL, CALL_TIMEOUT_S)
+        old_handler = signal.signal(signal.SIGVTALRM, _on_alarm)
+        signal.setitimer(signal.ITIMER_VIRTUAL, CALL_TIMEOUT_S)
         try:
             res = world.scheduler.schedule(ET(now), world.workload, world.worker_pools)
             placements = list(res)
         except ScheduleTimeout:
-            signal.setitimer(signal.ITIMER_REAL, 0)
+            signal.setitimer(signal.ITIMER_VIRTUAL, 0)
             # The call never returned. If the wrapper saw the policy put the same request into
             # batches again and again this is the placed-once clause failing without bound;
             # otherwise it is a tool failure (exit 2), not a verdict.
@@ -555,8 +556,8 @@ def run_spec(spec: dict, capture: bool = True):
         except Exception as e:  # noqa: BLE001 - the exception class is the outcome
             err = type(e).__name__
         finally:
-            signal.setitimer(signal.ITIMER_REAL, 0)
-            signal.signal(signal.SIGALRM, old_handler)
+            signal.setitimer(signal.ITIMER_VIRTUAL, 0)
+            signal.signal(signal.SIGVTALRM, old_handler)
             Capture.current = None
         if err == "ScheduleTimeout":
             lean_invs.append({"now": now, "offered": cap.offered or [], "workers": cap.view or pre_view, "load_err": None})
